@@ -101,11 +101,11 @@ def has_inchunk_dup(chunk):
 def make_spec(nbins, mode, chunks, mergebuf, max_merge, **kw):
     """chunks: list of lists of [bin1, bin2, value] in arrival order"""
     chunks = [[list(map(int, r)) for r in c] for c in chunks]
+    # a chunk is a pixel table: each pixel at most once per chunk (the statement speaks of pixels repeated ACROSS chunks;
+    # a chunk that itself repeats a pixel is refused by the default dupcheck, so such chunks are outside the quantifier)
+    assert not any(has_inchunk_dup(c) for c in chunks), chunks
     spec = dict(kind="ingest", nbins=nbins, mode=mode, chunks=chunks, mergebuf=int(mergebuf), max_merge=int(max_merge),
-                form="df", presorted=True, extra=False, delete_temp=True, temp_dir="default",
-                # a chunk that itself repeats a pixel is only accepted with dupcheck off (the library refuses it
-                # otherwise, by design); the records are then aggregated by the merge like all the others
-                dupcheck=not any(has_inchunk_dup(c) for c in chunks))
+                form="df", presorted=True, extra=False, delete_temp=True, temp_dir="default", dupcheck=True)
     spec.update(kw)
     return spec
 
@@ -148,10 +148,12 @@ def read_raw(path, group="/", extra=False):
 def input_kind(spec):
     n = len(spec["chunks"])
     total = sum(len(c) for c in spec["chunks"])
+    if n > spec["max_merge"] > 0 and n <= 3:
+        return "two-pass-with-2-or-3-chunks"
     if total == 0:
         return "all-chunks-empty"
     if n > spec["max_merge"] > 0:
-        return "two-pass-with-2-or-3-chunks" if n <= 3 else "two-pass"
+        return "two-pass"
     return "one-pass"
 
 
@@ -399,6 +401,8 @@ def partition_specs(nbins, mode, max_rec, max_chunks, combos, counter, max_chunk
                     chunks = [[] for _ in range(m)]
                     for rec, c in zip(recs, asg):
                         chunks[c].append(rec)
+                    if any(has_inchunk_dup(c) for c in chunks):
+                        continue                      # outside the quantifier, see make_spec
                     mb, mm = combos[counter[0] % len(combos)]
                     counter[0] += 1
                     yield make_spec(nbins, mode, chunks, mb, mm)
@@ -412,10 +416,16 @@ R5C = [[0, 2, 1], [1, 1, 2], [0, 2, 4], [1, 2, 8], [0, 2, 16]]      # one pixel 
 
 
 def round_robin(recs, n, empty_at=None):
+    """record i goes to chunk i mod n (skipping `empty_at`), moved on to the next chunk that does not hold its pixel yet;
+    a record that fits nowhere (fewer chunks than copies of the pixel) is left out"""
     chunks = [[] for _ in range(n)]
     slots = [i for i in range(n) if i != empty_at] or [0]
     for i, r in enumerate(recs):
-        chunks[slots[i % len(slots)]].append(r)
+        for d in range(len(slots)):
+            c = chunks[slots[(i + d) % len(slots)]]
+            if not any((x[0], x[1]) == (r[0], r[1]) for x in c):
+                c.append(r)
+                break
     return chunks
 
 
@@ -452,15 +462,8 @@ def main():
     counter = [0]
     if not B.thorough:
         combos = [(mb, mm) for mb in (1, 2, 3, 4) for mm in (1, 3, 200)]
-        # exhaustive small scope: 2 bins, <= 3 records; <= 3 ordered chunks for <= 2 records, <= 2 chunks for 3 records,
-        # plus the 3 records as 3 singleton chunks in all 6 arrival orders
-        specs += list(partition_specs(2, "upper", 3, 3, combos, counter, max_chunks_for=lambda r: 3 if r <= 2 else 2))
-        for ms in multisets(keys_for(2, "upper"), 3):
-            recs = [[k[0], k[1], 2 ** i] for i, k in enumerate(ms)]
-            for perm in itertools.permutations(range(3)):
-                mb, mm = combos[counter[0] % len(combos)]
-                counter[0] += 1
-                specs.append(make_spec(2, "upper", [[recs[i]] for i in perm], mb, mm))
+        # exhaustive small scope: 2 bins, <= 3 records, <= 3 ordered chunks (each chunk holding a pixel at most once)
+        specs += list(partition_specs(2, "upper", 3, 3, combos, counter))
         # plan x buffer sweep on fixed 5-record multisets over 3 bins
         specs += list(plan_specs(R5A, "upper", range(1, 6), range(1, 6), (1, 3, 6)))
         specs += list(plan_specs(R5B, "upper", (1, 4, 5), (1, 2, 5), (1, 2, 4, 6)))
@@ -480,8 +483,8 @@ def main():
                 specs.append(dict(kind="cli-load", nbins=3, mode="upper", lines=cli_lines, chunksize=cs, mergebuf=mb, max_merge=mm))
         specs.append(dict(kind="cli-load", nbins=3, mode="square", lines=cli_lines, chunksize=2, mergebuf=3, max_merge=2))
         B.bound = ("EXHAUSTIVE: all multisets of <=3 records over 2 bins (symmetric-upper) x all assignments to ordered chunks "
-                   "(<=3 chunks for <=2 records, <=2 chunks for 3 records + 3 singleton chunks in all 6 orders; every partition in every "
-                   "chunk order, empty and pixel-repeating chunks included), "
+                   "(<=3 chunks; every partition in every chunk order, with empty chunks and chunks repeating a pixel of another chunk; "
+                   "a chunk holds each pixel at most once), "
                    "(mergebuf,max_merge) cycled over {1,2,3,4}x{1,3,200}; fixed 5-record multisets over 3 bins x n_chunks 1..5 x "
                    "max_merge 1..5 x mergebuf {1,3,6} (+ leading-empty-row, square, extra float column, ensure_sorted, dict chunks, "
                    "create_cooler(ordered=False)+explicit temp_dir, empty chunk positions, delete_temp=False sub-sweeps); "
@@ -524,7 +527,9 @@ def main():
             chunks = [[] for _ in range(m)]
             for i in range(r):
                 k = B.rng.choice(keys)
-                chunks[B.rng.randrange(m)].append([k[0], k[1], 2 ** i])
+                c = chunks[B.rng.randrange(m)]
+                if not any((x[0], x[1]) == k for x in c):
+                    c.append([k[0], k[1], 2 ** i])
             opt = B.rng.random()
             kw = {}
             if opt < 0.1:
@@ -537,7 +542,7 @@ def main():
                 kw["delete_temp"] = False
             specs.append(make_spec(3, mode, chunks, B.rng.randint(1, 6), B.rng.choice([1, 2, 3, 4, 5, 200]), **kw))
         B.exhaustive = False
-        B.bound = ("EXHAUSTIVE: all multisets of <=3 records over 3 bins x all assignments to <=3 ordered chunks (4 offsets into the "
+        B.bound = ("EXHAUSTIVE (chunks hold each pixel at most once): all multisets of <=3 records over 3 bins x all assignments to <=3 ordered chunks (4 offsets into the "
                    "mergebuf 1..6 x max_merge 1..5 grid each); all multisets of <=4 records over 2 bins x <=4 chunks; 2 bins square "
                    "<=3 records x <=3 chunks; four fixed 5-record multisets x n_chunks 1..5 x max_merge 1..5 x mergebuf 1..6 (+ input "
                    "form / extra column / ensure_sorted / delete_temp=False / empty-chunk-position sub-sweeps); `cooler load` "
